@@ -143,6 +143,26 @@ def run(ctx):
                 ctx.violation('%s transform does not send every source landmark to its target landmark' % name, d, fwd if st1 != 'ok' else fwd.tolist())
             if st2 != 'ok' or np.abs(bwd - src).max() > 1e-6 * scale:
                 ctx.violation('negated %s transform does not send every target landmark back to its source landmark' % name, d, bwd if st2 != 'ok' else bwd.tolist())
+            # negation is an involution on the direction: -(-T) is T again; a transform built in the inverse direction and negated is forward;
+            # after T has been evaluated (cached coefficients) its negation must still be the inverse; sequences invert member-wise
+            st3, ff = guarded(lambda: (-(-t_)).xform(src))
+            if st3 != 'ok' or np.abs(ff - tgt).max() > 1e-6 * scale:
+                ctx.violation('-(-T) of a %s transform does not send every source landmark to its target landmark' % name, d, ff if st3 != 'ok' else ff.tolist())
+            if name == 'MLS':
+                st4, inv_ = guarded(cls, src, tgt, direction='inverse')
+                if st4 == 'ok':
+                    s5, a5 = guarded(inv_.xform, tgt)
+                    s6, a6 = guarded((-inv_).xform, src)
+                    if s5 != 'ok' or np.abs(a5 - src).max() > 1e-6 * scale:
+                        ctx.violation('MLS transform built with direction="inverse" does not send target landmarks to source landmarks', d, a5 if s5 != 'ok' else a5.tolist())
+                    if s6 != 'ok' or np.abs(a6 - tgt).max() > 1e-6 * scale:
+                        ctx.violation('negating an inverse-direction MLS transform does not give the forward transform', d, a6 if s6 != 'ok' else a6.tolist())
+            st7, sq = guarded(lambda: (-TransformSequence(t_)).xform(tgt))
+            if st7 != 'ok' or np.abs(sq - src).max() > 1e-6 * scale:
+                ctx.violation('negated sequence containing a %s transform does not map target landmarks back' % name, d, sq if st7 != 'ok' else sq.tolist())
+            st8, sq2 = guarded(lambda: (-TransformSequence(-t_)).xform(src))
+            if st8 != 'ok' or np.abs(sq2 - tgt).max() > 1e-6 * scale:
+                ctx.violation('negated sequence containing a negated %s transform does not map source landmarks forward' % name, d, sq2 if st8 != 'ok' else sq2.tolist())
     # ---------------- registries ----------------
     regjobs = []
     for ci in range(ctx.n(35, 500)):
